@@ -201,8 +201,16 @@
 //!     `cfg` / `cfg_attr` / `path` attributes anywhere, glob imports other than today's
 //!     (`std::io::prelude::*`), an import / item / module / macro / extern crate spelled like a std
 //!     name with a fixed meaning, like one of the helper functions or `minimal_lexical`, lower-case
-//!     constants and statics (constant patterns), item-position macro invocations, renamed
-//!     `extern crate`s; impl blocks, other imports, other attributes and modules are not restricted.
+//!     constants (constant patterns), item-position macro invocations, renamed `extern crate`s;
+//!     and (stage 12) every `trait`, every `static`, every `extern` block, every attribute that is
+//!     not doc / inline / allow / warn / deny / derive / macro_use / serde / test / must_use / cold
+//!     (so no `no_mangle`, `link_section`, `used`, `export_name`, `global_allocator`, ..), every
+//!     `impl` block whose self type is not a struct / enum / union defined in that file (no impl for
+//!     `Option<u32>`, `u8`, `&T`, `[T]`, `T`, ..), and every impl function spelled like a method /
+//!     function / macro-argument identifier that the target functions mention (`is_some`, `len`,
+//!     `get`, `to_digit`, ..: method probing tries by-value `self` candidates, inherent then trait,
+//!     before the autoref'd inherent `&self` methods that the translation maps).  Other imports and
+//!     modules are not restricted (the items of a module are visited like the others).
 //!
 //! Rules 28-30 ("raw mode") translate the unsafe vector back-end: every function of `impl StackVec`
 //! (stackvec.rs), its `Deref::deref`, and once more `bigint::shl_limbs`, over the cell-level memory
@@ -356,8 +364,19 @@
 //!          (without `*`) is refused, and `p` may only occur as the operand of `*`, `.field`, `[i]`,
 //!          a method call, `&` or as a call argument - not be copied, moved, stored or returned.
 //! C-LIT    an integer literal must fit its type (rustc wraps it under `#[allow(overflowing_literals)]`).
-//! C-CARGO  `<src-dir>/../Cargo.toml`, when present, may not have a `path` in `[lib]`, `[[test]]`,
-//!          `[[example]]`, `[[bin]]`, `[[bench]]`, nor a `build` key; `build.rs` may not exist (exit 2).
+//! C-CARGO  `<src-dir>/../Cargo.toml`, when present, is read by the TOML-subset reader of
+//!          manifest.rs (tables incl. quoted / dotted / array headers, bare / quoted / dotted keys,
+//!          the four string forms, arrays, inline tables; all flattened to key paths, so `[lib]
+//!          path`, `lib.path`, `["lib"] 'path'`, `lib = { path = .. }` are one entry) and held to a
+//!          WHITELIST: top-level tables `[package]` and `[features]` only (no lib / bin / test /
+//!          example / bench target, no dependency table of any kind - a dependency named `core` or
+//!          `ptr` would change what the whitelisted imports mean -, no target / patch / replace /
+//!          workspace / profile / lints / badges); `[package]`: `name = "minimal-lexical"`,
+//!          `edition = "2018"`, `autoexamples = false`, and the descriptive keys authors categories
+//!          description documentation keywords license readme repository version exclude (no
+//!          `build`, `links`, `auto*`, `metadata`, ..); `[features]`: exactly `default = ["std"]` and
+//!          `std compact alloc nightly lint verif = []`.  A key given twice, an unparsable manifest,
+//!          `build.rs`, `.cargo/config[.toml]`, `rust-toolchain[.toml]` next to it: exit 2.
 //! C-STALE  now also between the receiver of `map_or` and its default argument.
 //!
 //! C-NIGHTLY  rule 12 DROPS the statements under `#[cfg(feature = "nightly")]`, so they are pinned:
@@ -389,6 +408,45 @@
 //!          is the derive (rule 14, C-IMPL), the field lists of `ExtendedFloat` / `Number` /
 //!          `BellerophonPowers` (rule 9), `shl_limbs` (rule 23: tied at cell level by rule 28-30).
 //!
+//! Stage 12 (third red-team round):
+//! C-TEXT   every comparison of source text with a table (the attribute / cfg whitelist, the
+//!          statement cfgs of rules 12 / 21, `cfg_limb64`, the struct / signature checks, C-PIN,
+//!          C-PRIM, C-PIN32, C-NIGHTLY, C-IMPL) is made on `check::text`: the tokens as `quote!`
+//!          prints them, separated by single spaces, LITERALS VERBATIM.  White space between tokens
+//!          is free; `feature = "comp act"`, `target_pointer_width = "6 4"` are not today's; `a && b`
+//!          is not `a & &b`; `let ptr` is not `letptr`.  Table entries written as Rust are parsed and
+//!          printed the same way (`check::canon`); the pins are regenerated by `--dump-pins`.
+//! C-RAWID  no raw identifier (`r#Some` IS `Some` for rustc but not for a comparison by spelling)
+//!          anywhere in a file that is read or scanned: items, bodies, attributes, macro tokens.
+//! C-MACROTOK  the arguments of a macro invocation are token trees that the syn visitor does not
+//!          look into, and an item is global wherever it is written (`matches!(x, 0 if { impl T {
+//!          .. } true })`).  In every file that is read or scanned (unread modules, lenient
+//!          front-ends), in target and non-target code, the tokens of every macro invocation and
+//!          of every `macro_rules!` body (recursively through groups; `$name` / `$name:frag`
+//!          excepted in bodies) may not contain `impl trait macro_rules mod use extern static const
+//!          fn type struct enum union include include_str include_bytes asm global_asm`.  `asm!` /
+//!          `global_asm!` / `include*!` invocations are refused by name; the two `asm!` of fpu.rs
+//!          are pinned token for token.
+//! C-NAME   also reserved (no item / type parameter / lenient import may be called so): the
+//!          other prelude traits and types that whitelisted impls and derives mention by their bare
+//!          name (`Eq PartialEq Ord PartialOrd Copy Default Debug Hash From Into TryFrom TryInto
+//!          FromIterator IntoIterator DoubleEndedIterator ExactSizeIterator Extend Drop FnMut FnOnce
+//!          Send Sync Sized Unpin ToOwned ToString AsRef AsMut Vec Box String drop alloc`); no
+//!          `macro_rules!` may be called like a std macro (`matches assert* debug_assert* panic
+//!          write* print* format* vec cfg include* ..`).  `SMALL_INT_POW5/10`, `SMALL_F32/64_POW10`
+//!          have table_small.rs as their home.
+//! C-DERIVE the attributes (doc comments excepted) of `StackVec`, `HeapVec`, `Bigint`,
+//!          `ReverseView`, `Number`, `ExtendedFloat`, `BellerophonPowers` must be exactly today's
+//!          derive lists (the derives are what `==`, `clone`, `default` mean).
+//! C-USE    the other direction: every whitelisted import of a strict file must be PRESENT
+//!          (`ptr::write` is core's because of `use core::{.., ptr, ..}`).
+//! C-TABLE  table.rs consists of exactly today's three `#[cfg(..)] pub use crate::table_*::*;`
+//!          (an item of its own would shadow a glob re-export under the pinned primitives): exit 2.
+//! C-ATTR / C-MOD for the modules that are not read: every attribute must be a doc comment or one
+//!          of today's, listed by (file, text); no `static`, no `extern` block; C-MACROTOK and
+//!          C-RAWID apply.  In files that are read the only `static` is POWER_OF_FIVE_128.
+//!          Front-end files (strict and lenient): no `trait` at all.
+//!
 //! Anything else (other statements, patterns, methods, macros, types, labelled blocks, `continue`,
 //! …) is an error, and the translator fails closed
 //! PER FUNCTION: a function that cannot be translated is omitted from the output (a comment
@@ -406,6 +464,7 @@ mod expr;
 mod heap;
 mod lower;
 mod macros;
+mod manifest;
 mod pins;
 mod raw;
 mod ty;
@@ -640,7 +699,7 @@ fn struct_fields<'a>(file: &'a syn::File, name: &str) -> Option<(Vec<(String, St
                     .iter()
                     .map(|f| {
                         let t = &f.ty;
-                        (f.ident.as_ref().unwrap().to_string(), quote::quote!(#t).to_string().replace(' ', ""))
+                        (f.ident.as_ref().unwrap().to_string(), check::text(t))
                     })
                     .collect();
                 return Some((got, s));
@@ -654,7 +713,7 @@ fn struct_fields<'a>(file: &'a syn::File, name: &str) -> Option<(Vec<(String, St
 fn check_struct(file: &syn::File, fname: &str, name: &str, fields: &[(&str, &str)], need_eq: bool) {
     match struct_fields(file, name) {
         Some((got, s)) => {
-            let want: Vec<(String, String)> = fields.iter().map(|(a, b)| (a.to_string(), b.to_string())).collect();
+            let want: Vec<(String, String)> = fields.iter().map(|(a, b)| (a.to_string(), check::canon::<syn::Type>(b))).collect();
             if got != want {
                 fail(format!("{}: struct {} is {:?}, the translator expects {:?}", fname, name, got, want));
             }
@@ -669,15 +728,15 @@ fn check_struct(file: &syn::File, fname: &str, name: &str, fields: &[(&str, &str
 /// `#[cfg(..)]` selecting the 64-bit limb: Some(true) = the 64-bit side, Some(false) = the other
 /// side, None = no such attribute
 fn cfg_limb64(attrs: &[syn::Attribute]) -> Option<bool> {
-    const C64: &str = "all(target_pointer_width=\"64\",not(target_arch=\"sparc\"))";
+    const C64: &str = "all (target_pointer_width = \"64\" , not (target_arch = \"sparc\"))";
     for a in attrs {
         if a.path().is_ident("cfg") {
             if let Ok(l) = a.meta.require_list() {
-                let s: String = l.tokens.to_string().chars().filter(|c| !c.is_whitespace()).collect();
+                let s: String = l.tokens.to_string();
                 if s == C64 {
                     return Some(true);
                 }
-                if s == format!("not({})", C64) {
+                if s == format!("not ({})", C64) {
                     return Some(false);
                 }
             }
@@ -687,11 +746,11 @@ fn cfg_limb64(attrs: &[syn::Attribute]) -> Option<bool> {
 }
 
 fn ty_str(t: &syn::Type) -> String {
-    quote::quote!(#t).to_string().replace(' ', "")
+    check::text(t)
 }
 
 fn expr_str(e: &syn::Expr) -> String {
-    quote::quote!(#e).to_string().replace(' ', "")
+    check::text(e)
 }
 
 /// rule 14: the declarations behind `Limb`, `Wide`, `LIMB_BITS`, `VecType`, `Bigint`, `ReverseView`
@@ -705,7 +764,7 @@ fn check_limb_decls(bigint: &syn::File) -> Result<(), String> {
         attrs
             .iter()
             .filter(|a| a.path().is_ident("cfg"))
-            .filter_map(|a| a.meta.require_list().ok().map(|l| l.tokens.to_string().chars().filter(|c| !c.is_whitespace()).collect::<String>()))
+            .filter_map(|a| a.meta.require_list().ok().map(|l| l.tokens.to_string()))
             .collect::<Vec<_>>()
             .join(";")
     };
@@ -717,8 +776,8 @@ fn check_limb_decls(bigint: &syn::File) -> Result<(), String> {
                 bits = Some((ty_str(&c.ty), expr_str(&c.expr)))
             }
             syn::Item::Type(t) if t.ident == "VecType" => match (cfg_str(&t.attrs).as_str(), ty_str(&t.ty).as_str()) {
-                ("not(feature=\"alloc\")", "StackVec") => vec_stack = true,
-                ("feature=\"alloc\"", "HeapVec") => vec_heap = true,
+                ("not (feature = \"alloc\")", "StackVec") => vec_stack = true,
+                ("feature = \"alloc\"", "HeapVec") => vec_heap = true,
                 (c, t) => return Err(format!("bigint.rs: unexpected `type VecType = {}` under cfg({})", t, c)),
             },
             _ => {}
@@ -738,7 +797,7 @@ fn check_limb_decls(bigint: &syn::File) -> Result<(), String> {
         _ => return Err("bigint.rs: `struct Bigint` is no longer `{ data: VecType }`".into()),
     }
     match struct_fields(bigint, "ReverseView") {
-        Some((f, _)) if f == vec![("inner".to_string(), "&'a[T]".to_string())] => {}
+        Some((f, _)) if f == vec![("inner".to_string(), check::canon::<syn::Type>("&'a [T]"))] => {}
         _ => return Err("bigint.rs: `struct ReverseView` is no longer `{ inner: &'a [T] }`".into()),
     }
     // `ReverseView<T>` is only built by `rview`, at `T = Limb`
@@ -756,7 +815,7 @@ fn check_limb_decls(bigint: &syn::File) -> Result<(), String> {
                 syn::ReturnType::Type(_, t) => ty_str(t),
                 _ => String::new(),
             };
-            if ins != vec!["&[Limb]".to_string()] || out != "ReverseView<Limb>" {
+            if ins != vec![check::canon::<syn::Type>("&[Limb]")] || out != check::canon::<syn::Type>("ReverseView<Limb>") {
                 return Err("bigint.rs: `rview` is no longer `fn(&[Limb]) -> ReverseView<Limb>`".into());
             }
         }
@@ -802,44 +861,31 @@ fn find_fn<'a>(file: &'a syn::File, owner: &str, name: &str) -> Option<(&'a syn:
 fn is_deref_impl(im: &syn::ItemImpl, owner: &str, name: &str) -> bool {
     (owner == "StackVec" || owner == "HeapVec")
         && name == "deref"
-        && im.trait_.as_ref().map(|(_, p, _)| quote::quote!(#p).to_string().replace(' ', "") == "ops::Deref").unwrap_or(false)
+        && im.trait_.as_ref().map(|(_, p, _)| check::text(p) == "ops :: Deref").unwrap_or(false)
 }
 
-/// C-CARGO: the manifest must not redirect what is compiled: no `[lib] path`, no build script,
-/// no `path` in a `[[test]]` / `[[example]]` / `[[bin]]` / `[[bench]]` target (a missing manifest,
-/// as in a bare copy of `src/`, redirects nothing)
+/// C-CARGO: the manifest must not redirect what is compiled nor add anything to it: it is read with
+/// the TOML-subset reader of manifest.rs and held to a whitelist (only `[package]` and `[features]`,
+/// see `manifest::check`); no build script; no `.cargo/config[.toml]` / `rust-toolchain[.toml]` next
+/// to it (a missing manifest, as in a bare copy of `src/`, redirects nothing)
 fn check_cargo(dir: &str) -> Result<(), String> {
     let root = format!("{}/..", dir);
-    if std::path::Path::new(&format!("{}/build.rs", root)).exists() {
-        return Err("a build script `build.rs` exists".into());
-    }
-    let text = match std::fs::read_to_string(format!("{}/Cargo.toml", root)) {
-        Ok(t) => t,
-        Err(_) => return Ok(()),
-    };
-    let mut section = String::new();
-    for (i, raw) in text.lines().enumerate() {
-        let line = raw.split('#').next().unwrap_or("").trim();
-        if line.starts_with('[') {
-            section = line.chars().filter(|c| !c.is_whitespace()).collect();
-            continue;
-        }
-        let key: String = line.split('=').next().unwrap_or("").trim().trim_matches('"').to_string();
-        if !line.contains('=') {
-            continue;
-        }
-        let in_target = matches!(section.as_str(), "[lib]" | "[[test]]" | "[[example]]" | "[[bin]]" | "[[bench]]");
-        if in_target && key == "path" {
-            return Err(format!("Cargo.toml line {}: `path` in {} redirects a source file", i + 1, section));
-        }
-        if section == "[package]" && key == "build" && !line.ends_with("false") {
-            return Err(format!("Cargo.toml line {}: a build script is declared", i + 1));
-        }
-        if section == "[lib]" && (key == "proc-macro" || key == "proc_macro" || key == "plugin") {
-            return Err(format!("Cargo.toml line {}: unexpected `{}` in [lib]", i + 1, key));
+    for f in ["build.rs", ".cargo/config", ".cargo/config.toml", "rust-toolchain", "rust-toolchain.toml"] {
+        if std::path::Path::new(&format!("{}/{}", root, f)).exists() {
+            return Err(match f {
+                "build.rs" => "a build script `build.rs` exists".to_string(),
+                f => format!("`{}` exists next to the manifest (it can change how the crate is compiled)", f),
+            });
         }
     }
-    Ok(())
+    let path = format!("{}/Cargo.toml", root);
+    if !std::path::Path::new(&path).exists() {
+        return Ok(());
+    }
+    match std::fs::read_to_string(&path) {
+        Ok(t) => manifest::check(&t),
+        Err(e) => Err(format!("cannot read {}: {}", path, e)),
+    }
 }
 
 /// how many definitions `find_fn` could have picked (more than one: refuse, rustc takes the one
@@ -895,6 +941,10 @@ fn known_lib() -> check::Known {
         ("POWER_OF_FIVE_128", "table_lemire.rs"),
         ("LARGE_POW5", "table_small.rs"),
         ("LARGE_POW5_STEP", "table_small.rs"),
+        ("SMALL_INT_POW5", "table_small.rs"),
+        ("SMALL_INT_POW10", "table_small.rs"),
+        ("SMALL_F32_POW10", "table_small.rs"),
+        ("SMALL_F64_POW10", "table_small.rs"),
     ] {
         k.define(n, f);
     }
@@ -953,8 +1003,8 @@ fn generic_types(sig: &syn::Signature) -> R<HashMap<String, Ty>> {
                         m.insert(name.clone(), Ty::Fun(ps, Box::new(r)));
                     }
                 } else if seg.ident == "Iterator" {
-                    let args: String = quote::quote!(#seg).to_string().replace(' ', "");
-                    let ok = match args.strip_prefix("Iterator<Item=&'").and_then(|r| r.strip_suffix("u8>")) {
+                    let args: String = check::text(seg);
+                    let ok = match args.strip_prefix("Iterator < Item = & '").and_then(|r| r.strip_suffix(" u8 >")) {
                         Some(lt) => !lt.is_empty() && lt.chars().all(|c| c.is_ascii_lowercase()),
                         None => false,
                     };
@@ -1076,7 +1126,7 @@ fn translate(g: &Globals, tg: &Target, sig: &syn::Signature, body: &syn::Block) 
     let ret = match &sig.output {
         syn::ReturnType::Default => Ty::Unit,
         // raw mode (rule 28): `Option<()>` is a flag next to the (always returned) state
-        syn::ReturnType::Type(_, t) if (tg.raw || tg.heap) && quote::quote!(#t).to_string().replace(' ', "") == "Option<()>" => Ty::Flag,
+        syn::ReturnType::Type(_, t) if (tg.raw || tg.heap) && check::text(t) == check::canon::<syn::Type>("Option<()>") => Ty::Flag,
         syn::ReturnType::Type(_, t) => cx.conv_ty(t)?,
     };
     if ret == Ty::Float {
@@ -1341,6 +1391,9 @@ fn main() {
         if let Some(e) = check::check_file("table.rs", &table, &known).first() {
             fail(format!("table.rs: {}", e));
         }
+        if let Some(e) = check::check_table_rs(&table).first() {
+            fail(e.clone());
+        }
         let mut names: Vec<&String> = files.keys().collect();
         names.sort();
         for name in names {
@@ -1461,7 +1514,7 @@ fn main() {
         g.stackvec_ok = match struct_fields(&files["stackvec.rs"], "StackVec") {
             Some((f, _))
                 if f == vec![
-                    ("data".to_string(), "[mem::MaybeUninit<bigint::Limb>;bigint::BIGINT_LIMBS]".to_string()),
+                    ("data".to_string(), check::canon::<syn::Type>("[mem::MaybeUninit<bigint::Limb>; bigint::BIGINT_LIMBS]")),
                     ("length".to_string(), "u16".to_string()),
                 ] =>
             {
@@ -1470,13 +1523,12 @@ fn main() {
             _ => Err("stackvec.rs: `struct StackVec` is no longer `{ data: [mem::MaybeUninit<bigint::Limb>; bigint::BIGINT_LIMBS], length: u16 }`".into()),
         };
         g.heapvec_ok = match struct_fields(&files["heapvec.rs"], "HeapVec") {
-            Some((f, _)) if f == vec![("data".to_string(), "Vec<bigint::Limb>".to_string())] => g.limb_ok.clone(),
+            Some((f, _)) if f == vec![("data".to_string(), check::canon::<syn::Type>("Vec<bigint::Limb>"))] => g.limb_ok.clone(),
             _ => Err("heapvec.rs: `struct HeapVec` is no longer `{ data: Vec<bigint::Limb> }`".into()),
         };
         g.shl_limbs_ok = match find_fn(&files["bigint.rs"], "", "shl_limbs") {
             Some((sig, _)) => {
-                let s = quote::quote!(#sig).to_string().replace(' ', "");
-                s == "fnshl_limbs(x:&mutVecType,n:usize)->Option<()>"
+                check::text(sig) == check::canon::<syn::Signature>("fn shl_limbs(x: &mut VecType, n: usize) -> Option<()>")
             }
             None => false,
         };
@@ -1546,7 +1598,7 @@ fn main() {
                 g.export_parse_float = f.items.iter().any(|it| match it {
                     syn::Item::Use(u) if matches!(u.vis, syn::Visibility::Public(_)) => {
                         let t = &u.tree;
-                        quote::quote!(#t).to_string().replace(' ', "") == "self::parse::parse_float"
+                        check::text(t) == "self :: parse :: parse_float"
                     }
                     _ => false,
                 });
